@@ -411,13 +411,24 @@ impl HuginnNetTls {
         let mut pcap_reader = PcapReader::new(file)
             .map_err(|e| HuginnNetTlsError::Parse(format!("Failed to create PCAP reader: {e}")))?;
 
+        let mut read_failed = false;
         self.process_with(
-            move || match pcap_reader.next_packet() {
-                Some(Ok(packet)) => Some(Ok(packet.data.to_vec())),
-                Some(Err(e)) => {
-                    Some(Err(HuginnNetTlsError::Parse(format!("Error reading PCAP packet: {e}"))))
+            move || {
+                // A truncated or corrupt capture keeps returning the same read error:
+                // report it once and end the iteration instead of spinning forever.
+                if read_failed {
+                    return None;
                 }
-                None => None,
+                match pcap_reader.next_packet() {
+                    Some(Ok(packet)) => Some(Ok(packet.data.to_vec())),
+                    Some(Err(e)) => {
+                        read_failed = true;
+                        Some(Err(HuginnNetTlsError::Parse(format!(
+                            "Error reading PCAP packet: {e}"
+                        ))))
+                    }
+                    None => None,
+                }
             },
             sender,
             cancel_signal,
